@@ -172,9 +172,11 @@ func (b *mailbox) signal() {
 func (c *routerCore) receiveFrom(ctx context.Context, correlationID string, froms []sharing.ID) (map[sharing.ID][]byte, error) {
 	expected := hashset.NewComparable(froms...)
 
+	c.verifGate(ctx, "en")
 	c.mu.Lock()
 	if c.fatal != nil {
 		fatal := c.fatal
+		c.verifTrace(ctx, "en-fatal", correlationID, 0, nil)
 		c.mu.Unlock()
 		return nil, errs.Wrap(fatal).WithMessage("failed to receive message")
 	}
@@ -186,19 +188,23 @@ func (c *routerCore) receiveFrom(ctx context.Context, correlationID string, from
 	}
 	box := c.boxFor(correlationID)
 	if box.notify != nil {
+		c.verifTrace(ctx, "en-busy", correlationID, 0, nil)
 		c.mu.Unlock()
 		return nil, ErrInvalidArgument.WithMessage("concurrent ReceiveFrom calls share correlation ID %q", correlationID)
 	}
 	notify := make(chan struct{}, 1)
 	box.notify = notify
+	c.verifTrace(ctx, "en-attach", correlationID, 0, nil)
 	c.mu.Unlock()
 
 	defer func() {
+		c.verifGate(ctx, "cl")
 		c.mu.Lock()
 		box.notify = nil
 		if len(box.payloads) == 0 && box.poison == nil {
 			delete(c.boxes, correlationID)
 		}
+		c.verifTrace(ctx, "cl", correlationID, 0, nil)
 		c.mu.Unlock()
 	}()
 
@@ -207,9 +213,11 @@ func (c *routerCore) receiveFrom(ctx context.Context, correlationID string, from
 	// so a set completed before a failure or cancellation is still delivered
 	// no matter which wake-up fires first.
 	for {
+		c.verifGate(ctx, "sc")
 		c.mu.Lock()
 		if box.poison != nil {
 			poison := box.poison
+			c.verifTrace(ctx, "sc-poison", correlationID, 0, nil)
 			c.mu.Unlock()
 			return nil, poison
 		}
@@ -228,20 +236,25 @@ func (c *routerCore) receiveFrom(ctx context.Context, correlationID string, from
 				delete(box.payloads, from)
 			}
 			c.buffered -= expected.Size()
+			c.verifTrace(ctx, "sc-ok", correlationID, 0, nil)
 			c.mu.Unlock()
 			return received, nil
 		}
 		if c.fatal != nil {
 			fatal := c.fatal
+			c.verifTrace(ctx, "sc-fatal", correlationID, 0, nil)
 			c.mu.Unlock()
 			return nil, errs.Wrap(fatal).WithMessage("failed to receive message")
 		}
 		if err := ctx.Err(); err != nil {
+			c.verifTrace(ctx, "sc-ctx", correlationID, 0, nil)
 			c.mu.Unlock()
 			return nil, errs.Wrap(err).WithMessage("failed to receive message")
 		}
+		c.verifTrace(ctx, "sc-wait", correlationID, 0, nil)
 		c.mu.Unlock()
 
+		c.verifGate(ctx, "wt")
 		select {
 		case <-notify:
 		case <-ctx.Done():
@@ -282,8 +295,10 @@ func (c *routerCore) readLoop(ctx context.Context) {
 // deposit files an incoming message into its correlation mailbox. It reports
 // false when the router latched a fatal error and the reader must stop.
 func (c *routerCore) deposit(from sharing.ID, message routerMessage) bool {
+	c.verifGate(context.Background(), "dep")
 	c.mu.Lock()
 	defer c.mu.Unlock()
+	defer c.verifTrace(context.Background(), "dep", message.CorrelationID, from, message.Payload)
 
 	box := c.boxFor(message.CorrelationID)
 	if existing, ok := box.payloads[from]; ok {
@@ -318,8 +333,10 @@ func (c *routerCore) boxFor(correlationID string) *mailbox {
 }
 
 func (c *routerCore) fail(err error) {
+	c.verifGate(context.Background(), "fail")
 	c.mu.Lock()
 	defer c.mu.Unlock()
+	defer c.verifTrace(context.Background(), "fail", "", 0, nil)
 	c.failLocked(err)
 }
 
@@ -335,6 +352,7 @@ func (c *routerCore) shutdown() {
 	c.mu.Lock()
 	stop := c.stop
 	c.failLocked(ErrRouterClosed)
+	c.verifTrace(context.Background(), "close", "", 0, nil)
 	c.mu.Unlock()
 	if stop != nil {
 		stop()
